@@ -101,15 +101,18 @@ structure NextBlock (c : List Block) (d : Disk) (b : Block) : Prop where
   num : b.num = c.length
   parent : b.parent = (c.getLast?.map (·.hash)).getD 0
   oldRoot : b.oldRoot = (c.getLast?.map (·.root)).getD 0
+  newRoot : b.applied = b.root
   fresh : Fresh d b
 
-/-- No commit of a Store / RevertHead is made to fail (crashes are allowed everywhere). -/
+/-- No commit of a Store / RevertHead is made to fail and no write of a lazy filter initialisation
+(crashes are allowed everywhere). -/
 def NoFailedChainCommit : List (Op × Fault) → Prop
   | [] => True
   | (op, ft) :: rest =>
     (match op, ft with
       | .store _, .failAt _ => False
       | .revert, .failAt _ => False
+      | _, .failInit => False
       | _, _ => True) ∧ NoFailedChainCommit rest
 
 /-- A revert is "safe" for the unrepaired code when it does not take the chain below a persisted
